@@ -32,6 +32,7 @@ def parseCls : String → Class
 def parseSpec : String → Spec
   | "little" => .little
   | "big" => .big
+  | "native" => .little   -- modelled target is little-endian (cross-checked by the harness)
   | _ => .any
 
 def nat! (s : String) : Nat := s.toNat?.getD 0
@@ -138,12 +139,21 @@ def showDef (r : Out (Option SymbolDefinition)) : String :=
 
 def symverQueries (t : SymbolVersionTable) (idxs : List Nat) : String :=
   ";".intercalate (idxs.map fun i =>
-    s!"r{i}=" ++ showReq (t.getRequirement i) ++ ";d{i}=" ++ showDef (t.getDefinition i))
+    s!"r{i}=" ++ showReq (t.getRequirement i) ++ s!";d{i}=" ++ showDef (t.getDefinition i))
 
 def splitNats (s : String) : List Nat :=
-  if s == "-" then [] else (s.splitOn ",").map nat!
+  if s == "-" || s == "" then [] else (s.splitOn ".").map nat!
 
-def showTableLoc {α} (t : Table α) : String := s!"{showLoc t.data} n={t.len}"
+def fnv (s : String) : UInt64 :=
+  s.toUTF8.foldl (fun h b => (h ^^^ b.toUInt64) * 0x100000001b3) 0xcbf29ce484222325
+
+/-- a table's byte location is not observable through the crate's API: digest of the entries -/
+def tableDigest {α} (sh : α → String) (t : Table α) : String :=
+  let l := showOut (fun l => "[" ++ " ".intercalate (l.map sh) ++ "]") t.iter.collect.1
+  s!"n={t.len} h={fnv l}"
+
+def showStrtab (t : Slice) : String :=
+  "strtab(" ++ showOut showLoc (strGetRaw t 0) ++ "/" ++ showOut showLoc (strGetRaw t 1) ++ ")"
 
 /-- The `file` stream: open + a list of queries. -/
 def fileQuery (f : ElfBytes) (q : String) : String :=
@@ -151,7 +161,7 @@ def fileQuery (f : ElfBytes) (q : String) : String :=
   match q.front with
   | 'T' =>
     "T=" ++ showOut (fun (r : Option (Table SectionHeader) × Option Slice) =>
-      showOpt showTableLoc r.1 ++ "," ++ showOpt showLoc r.2) f.sectionHeadersWithStrtab
+      showOpt (tableDigest SectionHeader.show) r.1 ++ "," ++ showOpt showStrtab r.2) f.sectionHeadersWithStrtab
   | 'S' =>
     let i := nat! body
     match f.shdrs with
@@ -162,7 +172,7 @@ def fileQuery (f : ElfBytes) (q : String) : String :=
         s!"S{i}=" ++ sh.show ++
         " data=" ++ showOut (fun (r : Slice × Option CompressionHeader) =>
             showLoc r.1 ++ "," ++ showOpt CompressionHeader.show r.2) (f.sectionData sh) ++
-        " strtab=" ++ showOut showLoc (f.sectionDataAsStrtab sh) ++
+        " strtab=" ++ showOut showStrtab (f.sectionDataAsStrtab sh) ++
         " rels=" ++ showOut (iterTranscript Rel.show) (f.sectionDataAsRels sh) ++
         " relas=" ++ showOut (iterTranscript Rela.show) (f.sectionDataAsRelas sh) ++
         " notes=" ++ showOut notesTranscript (f.sectionDataAsNotes sh)
@@ -180,18 +190,17 @@ def fileQuery (f : ElfBytes) (q : String) : String :=
   | 'N' =>
     "N=" ++ showOut (showOpt SectionHeader.show) (f.sectionHeaderByName (sliceOfHex body))
   | 'Y' =>
-    "Y=" ++ showOut (showOpt fun (r : Table Symbol × Slice) => showTableLoc r.1 ++ "," ++ showLoc r.2) f.symbolTable
+    "Y=" ++ showOut (showOpt fun (r : Table Symbol × Slice) => tableDigest Symbol.show r.1 ++ "," ++ showStrtab r.2) f.symbolTable
   | 'D' =>
-    "D=" ++ showOut (showOpt fun (r : Table Symbol × Slice) => showTableLoc r.1 ++ "," ++ showLoc r.2) f.dynamicSymbolTable
-  | 'd' => "d=" ++ showOut (showOpt showTableLoc) f.dynamic
+    "D=" ++ showOut (showOpt fun (r : Table Symbol × Slice) => tableDigest Symbol.show r.1 ++ "," ++ showStrtab r.2) f.dynamicSymbolTable
+  | 'd' => "d=" ++ showOut (showOpt (tableDigest Dyn.show)) f.dynamic
   | 'C' =>
     "C=" ++ showOut (fun (c : ElfBytes.CommonElfData) =>
-      "symtab=" ++ showOpt showTableLoc c.symtab ++ "," ++ showOpt showLoc c.symtabStrs ++
-      " dynsyms=" ++ showOpt showTableLoc c.dynsyms ++ "," ++ showOpt showLoc c.dynsymsStrs ++
-      " dynamic=" ++ showOpt showTableLoc c.dynamic ++
-      " sysv=" ++ showOpt (fun (t : SysVHashTable) => showTableLoc t.buckets ++ "," ++ showTableLoc t.chains) c.sysvHash ++
-      " gnu=" ++ showOpt (fun (t : GnuHashTable) => t.hdr.show ++ "," ++ showLoc t.bloom ++ "," ++
-          showTableLoc t.buckets ++ "," ++ showTableLoc t.chains) c.gnuHash) f.findCommonData
+      "symtab=" ++ showOpt (tableDigest Symbol.show) c.symtab ++ "," ++ showOpt showStrtab c.symtabStrs ++
+      " dynsyms=" ++ showOpt (tableDigest Symbol.show) c.dynsyms ++ "," ++ showOpt showStrtab c.dynsymsStrs ++
+      " dynamic=" ++ showOpt (tableDigest Dyn.show) c.dynamic ++
+      " sysv=" ++ showOpt (fun (_ : SysVHashTable) => "y") c.sysvHash ++
+      " gnu=" ++ showOpt (fun (t : GnuHashTable) => t.hdr.show) c.gnuHash) f.findCommonData
   | 'H' =>
     -- hash lookups of a name through find_common_data's tables (dynsyms)
     let name := sliceOfHex body
@@ -268,8 +277,8 @@ def handle (line : String) : String :=
   | ["file", sp, queries, hex] =>
     match minimalParse (parseSpec sp) (sliceOfHex hex) with
     | .ok f =>
-      let head := "open=ok " ++ f.ehdr.show ++ " shdrs=" ++ showOpt showTableLoc f.shdrs ++
-        " phdrs=" ++ showOpt showTableLoc f.phdrs
+      let head := "open=ok " ++ f.ehdr.show ++ " shdrs=" ++ showOpt (tableDigest SectionHeader.show) f.shdrs ++
+        " phdrs=" ++ showOpt (tableDigest ProgramHeader.show) f.phdrs
       if queries == "-" then head
       else head ++ ";" ++ ";".intercalate ((queries.splitOn ",").map (fileQuery f))
     | r => "open=" ++ showOut (fun _ => "") r
